@@ -269,6 +269,30 @@ impl<'a> CompilerState<'a> {
         self.variables.get(name).unwrap()
     }
 
+    /// The address a constant stands for, when the compiler knows it: a literal address, or
+    /// the low / high byte of another constant's known address (plus an offset)
+    pub fn constant_address(&self, v: &Variable) -> Option<i32> {
+        self.constant_address_ex(v, 0)
+    }
+
+    fn constant_address_ex(&self, v: &Variable, depth: u32) -> Option<i32> {
+        if !v.var_const || depth > 16 {
+            return None;
+        }
+        let base = |name: &String, off: &i32| {
+            self.variables
+                .get(name)
+                .and_then(|b| self.constant_address_ex(b, depth + 1))
+                .map(|a| a.wrapping_add(*off))
+        };
+        match &v.def {
+            VariableDefinition::Value(VariableValue::Int(a)) => Some(*a),
+            VariableDefinition::Value(VariableValue::LowPtr((name, off))) => base(name, off).map(|a| a & 0xff),
+            VariableDefinition::Value(VariableValue::HiPtr((name, off))) => base(name, off).map(|a| (a >> 8) & 0xff),
+            _ => None,
+        }
+    }
+
     pub fn sorted_functions(&self) -> Vec<(&String, &Function<'a>)> {
         let mut v: Vec<(&String, &Function)> = self.functions.iter().collect();
         v.sort_by(|a, b| a.1.order.cmp(&b.1.order));
